@@ -56,6 +56,25 @@ def stats(c, r):
             'deadlock_end': 1 if 'end deadlock' in raw else 0}
 
 
+def _unwrap_replay():
+    """A replay written by this check is JSON with the case text under 'case'; hand e1check a plain
+    case file (build/ is scratch space)."""
+    import json
+    for i, a in enumerate(sys.argv):
+        if a == '--replay' and i + 1 < len(sys.argv):
+            try:
+                d = json.load(open(sys.argv[i + 1]))
+            except Exception:
+                return
+            if isinstance(d, dict) and 'case' in d:
+                out = os.path.join(e1check.BUILD, 'replay_C07.case')
+                os.makedirs(e1check.BUILD, exist_ok=True)
+                with open(out, 'w') as f:
+                    f.write(d['case'] + '\n')
+                sys.argv[i + 1] = out
+
+
+_unwrap_replay()
 e1check.run(dict(
     prop='C07', model='cv', harness='e1/cv.cpp', bin='e1_cv', gen=gen, nontrivial=nontrivial, stats=stats,
     quick=4000, thorough=80000, extra=8000,
